@@ -81,7 +81,10 @@ type FuncContract struct {
 	Opaque   bool
 	Reveal   []string
 	AbstractDiv bool
+	AssumedFrame string
 	Effects  []string
+	CondEffects  []*Clause
+	CallRequires []*Clause
 }
 
 type CallbackContract struct {
@@ -146,7 +149,14 @@ func parseContracts(fset *token.FileSet, f *ast.File, pkgPath string) ([]*FuncCo
 				continue // package dependency hint, handled by the driver
 			}
 			if kw == "func" {
-				cur = &FuncContract{RawName: rest, PkgPath: pkgPath, Key: canonKey(pkgPath, rest),
+				// "func NAME impl": a second contract of NAME that is only verified against the body and never used at call
+				// sites (callers see the plain contract of NAME, typically a trusted frame abstraction)
+				impl := ""
+				if strings.HasSuffix(rest, " impl") {
+					rest = strings.TrimSpace(strings.TrimSuffix(rest, " impl"))
+					impl = implSuffix
+				}
+				cur = &FuncContract{RawName: rest, PkgPath: pkgPath, Key: canonKey(pkgPath, rest) + impl,
 					LoopInv: map[int][]*Clause{}, LoopDec: map[int]*Clause{}, LoopUnroll: map[int]int{}, LoopAssigns: map[int]*Clause{},
 					Callbacks: map[string]*CallbackContract{}, QuickSkip: map[string]bool{}, Pos: cm.Pos(), File: f}
 				out = append(out, cur)
@@ -172,7 +182,22 @@ func parseContracts(fset *token.FileSet, f *ast.File, pkgPath string) ([]*FuncCo
 				cur.Opaque = true
 			case "effect":
 				// effect NAME...: every call of this function increments the caller's ghost counter NAME
+				// effect NAME if EXPR: only when EXPR (over the callee's parameters and results) holds after the call
+				if i := strings.Index(rest, " if "); i >= 0 {
+					cl.Ghost, cl.Text = strings.TrimSpace(rest[:i]), strings.TrimSpace(rest[i+4:])
+					cur.CondEffects = append(cur.CondEffects, cl)
+					break
+				}
 				cur.Effects = append(cur.Effects, strings.Fields(rest)...)
+			case "callrequires":
+				// callrequires CALLEE EXPR : at every call of CALLEE made by this function, EXPR (over this function's
+				// variables and arg0..argN, the call's actual arguments, receiver first) must hold
+				fs := strings.SplitN(rest, " ", 2)
+				if len(fs) != 2 {
+					return nil, fmt.Errorf("%s: callrequires CALLEE EXPR", fset.Position(cm.Pos()))
+				}
+				cl.CbName, cl.Text = fs[0], strings.TrimSpace(fs[1])
+				cur.CallRequires = append(cur.CallRequires, cl)
 			case "abstractdiv":
 				cur.AbstractDiv = true
 			case "reveal":
@@ -188,6 +213,13 @@ func parseContracts(fset *token.FileSet, f *ast.File, pkgPath string) ([]*FuncCo
 				cur.Trusted = rest
 				if rest == "" {
 					cur.Trusted = "assumed"
+				}
+			case "assumedframe":
+				// assumedframe REASON: the assigns clause is what callers may rely on but is not checked against the body
+				// (used where the real footprint is a set of linked nodes the target language cannot name); listed as an assumption
+				cur.AssumedFrame = rest
+				if rest == "" {
+					cur.AssumedFrame = "assumed"
 				}
 			case "maypanic":
 				cur.MayPanic = true
